@@ -8,12 +8,20 @@ from cola import ops
 import trees as T
 
 
+PRE = {}      # id(array) -> (array, snapshot taken before it was handed to a cola constructor)
+
+
+def pre_snaps(arrays):
+    return [PRE[id(a)][1] for a in arrays]
+
+
 def build_rec(t, arrays):
     """like trees.build, but every array handed to a cola constructor is recorded in `arrays` (caller-owned)"""
     k = t["k"]
 
     def keep(a):
         arrays.append(a)
+        PRE[id(a)] = (a, (a.tobytes(), a.dtype.str, a.shape))      # bytes BEFORE the constructor sees the array
         return a
     if k == "Dense":
         return ops.Dense(keep(T.arr(t["a"], t["dt"])))
@@ -233,7 +241,7 @@ def make_pool(rnd, n_ops, present_c01=("sparse_unsorted_cols", "concat_assert_wr
             continue
         if want and t["k"] == want[0]:
             want.pop(0)
-        pool.append(dict(tree=t, op=A, arrays=arrays, base=base.copy(), ann=ann_names(A), shape=(m, n), dtype=str(np.dtype(A.dtype))))
+        pool.append(dict(tree=t, op=A, arrays=arrays, snaps=pre_snaps(arrays), base=base.copy(), ann=ann_names(A), shape=(m, n), dtype=str(np.dtype(A.dtype))))
     return pool, rejected
 
 
@@ -309,6 +317,7 @@ def reordered_slice_trees(rnd):
         if m >= 3:
             out.append(("perm", ident[1:] + ident[:1]))          # not an arithmetic progression: an index array
             out.append(("perm2", [1, 0] + ident[2:]))
+            out.append(("neg", [-1, 0, -2] + ident[3:]))           # negative entries in a caller-owned index array
         out.append(("sub", ident[:max(1, m - 1)]))
         return out
     trees = []
@@ -319,7 +328,7 @@ def reordered_slice_trees(rnd):
                 for cn, cs in sels(n):
                     if (rn, cn) == ("id", "id") or (rn == "sub" and cn == "sub"):
                         continue
-                    if dt != "float64" and not ({rn, cn} & {"rev", "perm"}):
+                    if dt != "float64" and not ({rn, cn} & {"rev", "perm", "neg"}):
                         continue
                     trees.append(dict(k="Sliced", a=copy.deepcopy(par), rs=list(rs), cs=list(cs)))
     return trees
@@ -329,4 +338,4 @@ def entry_of(t):
     arrays = []
     A = build_rec(t, arrays)
     base = np.asarray(A.to_dense())
-    return dict(tree=t, op=A, arrays=arrays, base=base.copy(), ann=ann_names(A), shape=tuple(A.shape), dtype=str(np.dtype(A.dtype)))
+    return dict(tree=t, op=A, arrays=arrays, snaps=pre_snaps(arrays), base=base.copy(), ann=ann_names(A), shape=tuple(A.shape), dtype=str(np.dtype(A.dtype)))
